@@ -170,6 +170,7 @@ type frameSpec struct {
 	allowed map[string]*frameAllow
 	mapOK   map[string]bool
 	allKeys map[string]bool
+	external bool
 }
 
 // frameSpecOf evaluates the modifies clause of the function under
@@ -194,6 +195,10 @@ func (x *Exec) frameSpecOf(fr *Frame) *frameSpec {
 	ctx.src = ct.Src
 	for _, m := range ct.Modifies {
 		m = strings.TrimSpace(m)
+		if m == "external" {
+			fs.external = true
+			continue
+		}
 		if i := strings.Index(m, "("); i > 0 && strings.HasSuffix(m, ")") {
 			name := strings.TrimSpace(m[:i])
 			if srt, ok := x.eng.ghostFields[name]; ok {
@@ -248,7 +253,7 @@ func (x *Exec) frameGoal(fr *Frame, k string, cur *State) string {
 	ent := fr.entry
 	curT := vc.heapGet(cur, k)
 	old := vc.heapGet(ent, k)
-	if curT == old || fs.allKeys[k] {
+	if curT == old || fs.allKeys[k] || (fs.external && isExternalKey(k)) {
 		return ""
 	}
 	if strings.HasPrefix(k, "M") {
@@ -288,6 +293,9 @@ func (x *Exec) frameObligations(fr *Frame, fin *State, unit, suffix string) {
 	vc := x.vc
 	ct := fr.ct
 	ent := fr.entry
+	if fin.ext != ent.ext && !x.frameSpecOf(fr).external {
+		vc.oblige(fmt.Sprintf("%s/frame:external%s", unit, suffix), "frame", unit, ct.Src, "a call may modify dependency-typed memory outside the modifies clause", fin.pc, "false")
+	}
 	if fin.epoch != ent.epoch {
 		vc.oblige(fmt.Sprintf("%s/frame:havoc%s", unit, suffix), "frame", unit, ct.Src, "an uncontracted call may modify memory outside the modifies clause", fin.pc, "false")
 		return
